@@ -582,15 +582,14 @@ def align_wcs(wcscat, refcat=None, ref_tpwcs=None, enforce_user_order=True,
 
     # check fitgeom:
     fitgeom = fitgeom.lower()
-    try:
-        if minobj is None:
-            minobj = SUPPORTED_FITGEOM_MODES[fitgeom]
-            log.debug(f"Setting 'minobj' to {minobj} for fitgeom='{fitgeom}'")
-    except KeyError:
+    if fitgeom not in SUPPORTED_FITGEOM_MODES:
         raise ValueError(
             "Unsupported 'fitgeom'. Valid values are: "
             f"{_SUPPORTED_FITGEOM_EN_STR:s}"
         )
+    if minobj is None:
+        minobj = SUPPORTED_FITGEOM_MODES[fitgeom]
+        log.debug(f"Setting 'minobj' to {minobj} for fitgeom='{fitgeom}'")
 
     # process reference catalog or image if provided:
     if refcat is not None:
